@@ -1,4 +1,5 @@
 import DaskModel.Lemmas.ArrOverlapLemmas
+import DaskModel.Lemmas.ArrOverlapLocal
 /-!
 # C26 — overlap computations match the unchunked stencil (theorems)
 
@@ -17,12 +18,16 @@ About the transliteration `Model/ArrOverlap.lean` (one axis; the N-d operation i
                           agree with computed blocks);
 * `trim_overlap_id_needs_guard`  witness: without the guard the identity fails in the model exactly as in the code
                           (a neighbour shorter than the depth contributes fewer cells than are trimmed);
+* `map_overlap_eq_global`  **map_overlap = the function on the whole axis** (boundary 'none'): for every function
+                          whose output at a cell depends on at most `dl` cells before and `dr` cells after it (windows
+                          cut at the array ends), mapping it over the overlapped blocks and trimming gives, block by
+                          block, exactly its values on the unchunked axis — under the same size guard;
 * `ensure_min_ok`, `ensure_min_raises_only_if_short`   `ensure_minimum_chunksize` keeps the axis length, makes
                           every chunk ≥ size, and raises only when the axis is shorter than `size`.
 
-Validated, not proved: boundary index maps (`padPositions`, diffed against `boundaries()` and `np.pad`),
-`map_overlap` assembly for d-local functions (random linear stencils vs pad-apply-trim), rechunking,
-`sliding_window_view`.
+Validated, not proved: boundary index maps (`padPositions`, diffed against `boundaries()` and `np.pad`) and hence
+`map_overlap` with a boundary other than 'none' (= the theorem applied to the padded array; validated with random
+linear stencils vs pad-apply-trim), rechunking (C23), `sliding_window_view`.
 -/
 namespace Dask.C26
 open Dask.ArrOverlap
@@ -52,6 +57,20 @@ example : trimBlocks true 2 1 (overlapBlocks 2 1 [[0, 1, 2], [3, 4], [5, 6, 7, 8
     (this is why `overlap` rechunks with `ensure_minimum_chunksize` or raises). -/
 theorem trim_overlap_id_needs_guard :
     trimBlocks true 2 0 (overlapBlocks 2 0 [[0], [1, 2, 3]]) ≠ [[0], [1, 2, 3]] := by decide
+
+/-- `win dl dr g` is the general form of a function "whose window fits within the depth": the output for a cell is
+    `g (up to dl cells before) cell (up to dr cells after)`. -/
+theorem map_overlap_eq_global {α β : Type} (dl dr : Nat) (g : List α → α → List α → β) (blocks : List (List α))
+    (hbig : ∀ blk ∈ blocks, dl ≤ blk.length ∧ dr ≤ blk.length) :
+    (trimBlocks true dl dr ((overlapBlocks dl dr blocks).map (winFn dl dr g))).flatten
+      = winFn dl dr g blocks.flatten :=
+  map_overlap_local dl dr g blocks hbig
+
+/-- non-vacuity: a 3-point sum (one back, one ahead) over chunks (2, 3, 2) -/
+example :
+    let g : List Int → Int → List Int → Int := fun pre x post => pre.sum + x + post.sum
+    (trimBlocks true 1 1 ((overlapBlocks 1 1 [[1, 2], [3, 4, 5], [6, 7]]).map (winFn 1 1 g))).flatten
+      = winFn 1 1 g [1, 2, 3, 4, 5, 6, 7] := by decide
 
 theorem ensure_min_ok (size : Nat) (chunks r : List Nat) (h : ensureMin size chunks = some r) :
     r.sum = chunks.sum ∧ ∀ c ∈ r, size ≤ c :=
